@@ -5,6 +5,7 @@ MCHashes == {"h1", "h2"}
 MCSymOK == {<<"HEAD", "refs/heads/a">>, <<"HEAD", "refs/tags/t">>}
 MCNoRemove == {"HEAD"}
 MCObjects == {"blobA", "blobB", "treeT", "commitC", "tagG"}
+MCPackSets == {{"blobA", "blobB"}, {"blobB", "treeT", "commitC"}}
 MCIdxVals == {"i1", "i2"}
 MCShallowSets == {{"h1"}, {"h1", "h2"}}
 MCCfgVals == {"c1", "c2"}
